@@ -41,7 +41,7 @@ var clT0 = time.Date(2024, 1, 1, 0, 0, 0, 0, time.UTC)
 var clUnits = []time.Duration{time.Minute, 100 * time.Millisecond}
 
 func clTimeU(t int, u time.Duration) time.Time { return clT0.Add(time.Duration(t) * u) }
-func clName(db string, inst, ts int) string { return clNameU(db, inst, ts, time.Minute) }
+func clName(db string, inst, ts int) string    { return clNameU(db, inst, ts, time.Minute) }
 func clNameU(db string, inst, ts int, u time.Duration) string {
 	ni := snapshot.NameInfo{Kind: snapshot.KindSnapshot, Extension: snapshot.DefaultExtension, SyncerName: db,
 		InstanceID: fmt.Sprintf("i%d", inst), GenerationID: "GX", Timestamp: clTimeU(ts, u)}
